@@ -87,6 +87,7 @@ class Trace:
         self.tags = {}  # okey/tkey -> set(root-cause markers)
         self.shadow = collections.defaultdict(list)  # market -> orders accepted by place_order (C15)
         self.placed_trades = set()  # id(trade) of trades charged to a runner context (executed placements)
+        self.in_place_request = 0
         self.undisciplined = set()  # (strategy, market, sel, hc) where an order was accepted while another was unacknowledged / forced
         self.reused_complete_trades = set()  # a new order was placed in an already COMPLETE trade (outside C10)
         self.distinct = set()
@@ -317,8 +318,14 @@ def attach(tr):
                     "mstatus": market.market_book.status if market.market_book is not None else None,
                 }
                 TR.requests.append(rec)
+                if kind == "PLACE":
+                    TR.in_place_request += 1
                 try:
-                    res = orig(self, order, *a, **kw)
+                    try:
+                        res = orig(self, order, *a, **kw)
+                    finally:
+                        if kind == "PLACE":
+                            TR.in_place_request -= 1
                 except BaseException as e:
                     rec["exc"] = type(e).__name__
                     rec["exc_msg"] = str(e)[:200]
@@ -565,6 +572,12 @@ def attach(tr):
     def mk_set(orig):
         def __setitem__(self, ref, order):
             TR.blot.append({"seq": TR.nseq(), "tick": TR.tick, "kind": "set", "o": TR.okey(order), "market": self.market_id, "status": sname(order.status)})
+            if not TR.in_place_request:
+                # adoption from the order stream (process.create_order_from_current) enters the blotter directly
+                order._vf_adopted = True
+                TR.shadow[self.market_id].append(order)
+                TR.placed_trades.add(id(order.trade))
+                TR.tkey(order.trade)
             return orig(self, ref, order)
 
         return __setitem__
